@@ -3,6 +3,7 @@
 // sub-tree views on prefixes of it) and on a private C++ configuration, judged
 // against a path -> value tree map.  Allocations fail inside assignments.
 #include "worlds/common.hpp"
+#include "collection.h"
 
 using namespace sim;
 using namespace mpt;
@@ -354,7 +355,26 @@ struct ConfigWorld : World {
 				outcome = (int) seen.size();
 				break;
 			}
-			case OP_SWEEP: verify_all("SWEEP", 0, 0); outcome = 1; break;
+			case OP_SWEEP: {
+				verify_all("SWEEP", 0, 0); outcome = 1;
+				// the private C++ configuration lists its elements (the collection handed to a query handler): exactly the paths that exist, by name
+				struct Lst { std::set<std::string> paths; std::string cur; char sep; int nameless = 0; int depth = 0;
+					static int item(void *ctx, const identifier *id, convertable *, const collection *sub) { Harness h; Lst *l = (Lst *) ctx;
+						const char *nm = id ? id->name() : 0; if (!nm && !(id && id->_len)) { ++l->nameless; return 0; }
+						std::string keep = l->cur; if (!l->cur.empty() || l->depth) l->cur += l->sep; l->cur += nm ? nm : ""; l->paths.insert(l->cur);
+						if (sub && l->depth < 8) { ++l->depth; { Reenter r; sub->each(item, ctx); } --l->depth; }
+						l->cur = keep; return 0; }
+					static int top(void *ctx, convertable *, const collection *c) { Harness h; if (c) { Reenter r; c->each(item, ctx); } return 0; } } lst;
+				lst.sep = sep;
+				{ Sut s; priv->query(0, Lst::top, &lst); }
+				std::vector<std::pair<PathV, const MNode *>> all; PathV cur; collect(model[1], cur, all);
+				std::set<std::string> want; for (auto &e : all) want.insert(join(e.first));
+				if (lst.nameless) fail("ghost-path", "the private configuration lists %d element(s) without a name (removed elements?) beside %zu named ones", lst.nameless, lst.paths.size());
+				if (!partial[1]) for (auto &pth : lst.paths) if (!want.count(pth)) fail("ghost-path", "the private configuration lists '%.40s', which was never assigned or was removed", pth.c_str());
+				for (auto &pth : want) if (!lst.paths.count(pth)) fail("lost-path", "the private configuration does not list '%.40s', which exists", pth.c_str());
+				st.hit("probe:cxx_config_listing");
+				break;
+			}
 			}
 			if (fired) st.hit("fault:allocfail");
 			st.state(900 + op.kind, holder * 16 + depth * 4 + (fired ? 2 : 0) + (sep != '.' ? 1 : 0), outcome + 8 * (int) (op.b % 8));
